@@ -153,6 +153,9 @@ class RealRig(Rig):
         if fault:
             if fault[0] == "die":
                 c["die_after"] = fault[1]
+            elif fault[0] == "hangup":
+                c["die_after"] = fault[1]
+                c["hangup"] = 1.2      # the child hangs up its terminal, exits 1.2 s later
             elif fault[0] == "silent":
                 c["silent_after"] = fault[1]
         self.srv.set_ctl(**c)
@@ -309,7 +312,7 @@ def H(s):
         f = None
         if "!" in w:
             w, f = w.split("!")
-            f = [{"d": "die", "s": "silent"}[f[0]], int(f[1:])]
+            f = [{"d": "die", "s": "silent", "h": "hangup"}[f[0]], int(f[1:])]
         d = {"op": w.split(".")[0]}
         if "." in w:
             d["body"] = w.split(".")[1]
@@ -317,6 +320,15 @@ def H(s):
             d["fault"] = f
         out.append(d)
     return out
+
+
+def quick_cases():
+    """the pty part that is cheap enough for every run: the ssh child exits / hangs up in the middle of an operation (the EOF
+    is observed by a read), then close() / with-exit must have reaped it -- no process table entry, no pty descriptor"""
+    mk = lambda plat, sink, bypass, sh: dict(stack="sync", platform=plat, kind="system", sink=sink, on_open="default", on_close="default",
+                                             timeout_ops=15, bypass=bypass, ops=H(sh))
+    return [mk("generic", "path", False, "O X!d1 C O X C"), mk("cisco_iosxe", "true", True, "W.x!d1 W.x"),
+            mk("generic", "none", True, "O X!h1 C"), mk("arista_eos", "bytesio", False, "O X C C")]
 
 
 def real_cases():
@@ -341,6 +353,11 @@ def real_cases():
                 i += 1
                 c["ops"] = H(sh)
                 cases.append(c)
+    # the ssh child hangs up its terminal but lingers (system transport)
+    for plat, sh in (("generic", "O X!h1 C O X C"), ("cisco_iosxe", "W.x!h1 W.x"), ("generic", "W.xr!h1 O C")):
+        cases.append(dict(stack="sync", platform=plat, kind="system", sink=sinks[i % 4], on_open="default", on_close="default", timeout_ops=8,
+                          bypass=(i % 2 == 0), ops=H(sh)))
+        i += 1
     # failure during open inside a with-block: wrong password (ssh transports), then the connection is used normally
     for kind in ("paramiko", "asyncssh"):
         stack = "sync" if kind in SYNC_KINDS else "async"
@@ -387,8 +404,8 @@ def oracle_case(mod, ck, case, results, fresh):
         ck.violation(vcase, text + (f" [{res['flags'].get('os_detail')}]" if res["flags"].get("os_detail") else ""), m)
 
 
-def run_all(ck, mod):
-    """thorough tier entry: every real case through the oracle and the (coarse) model correspondence"""
+def run_all(ck, mod, tier="thorough"):
+    """every real case of the tier through the oracle and the (coarse) model correspondence"""
     from vlib.common import run_model
     import logging
     logging.getLogger("paramiko").addHandler(logging.NullHandler())     # its worker thread reports socket errors at close on stderr otherwise
@@ -398,8 +415,8 @@ def run_all(ck, mod):
     batch = []
     t0 = time.time()
     try:
-        cases = real_cases()
-        for k in ("telnet", "paramiko"):
+        cases = real_cases() if tier == "thorough" else quick_cases()
+        for k in sorted({c["kind"] for c in cases} - {"system"}):
             servers().port(k)           # device processes (and their stdout pipes) exist before any fd baseline is taken
         for case in cases:
             def fresh(specs, case=case):
